@@ -5,8 +5,8 @@
 set -u
 N=$1
 SRC=${2:-/tmp/seeded-out/$N}
-WT=/tmp/wt/verify
-export CARGO_TARGET_DIR=/tmp/wt/verify-target CARGO_NET_OFFLINE=true
+WT=${VERIFY_WT:-/tmp/wt/verify}
+export CARGO_TARGET_DIR=${VERIFY_WT:-/tmp/wt/verify}-target CARGO_NET_OFFLINE=true
 [ -d $WT ] || git -C /repo worktree add --detach $WT HEAD >/dev/null 2>&1
 cd $WT && git checkout -q -- . && git clean -fdq
 R=$SRC/verify_result.txt; : > $R
